@@ -35,7 +35,7 @@ def branch_guards(body, site_bb):
             # ignore unreachable otherwise blocks
             if body.blocks[tgt].term.kind == "unreachable":
                 continue
-            if tgt == site_bb or site_bb in body.reachable_from(tgt):
+            if tgt == site_bb or _reaches_avoiding(body, tgt, site_bb, bb):
                 reach.append((v, tgt))
             else:
                 bails.append((v, tgt))
@@ -43,6 +43,23 @@ def branch_guards(body, site_bb):
             cond = strip_casts(expr_of(body, t.d[1]))
             out.append(Guard(body, bb, cond, reach[0][1], bails, reach[0][0]))
     return out
+
+
+def _reaches_avoiding(body, start, goal, avoid):
+    """is `goal` reachable from `start` without passing through `avoid` (a loop's guard is re-evaluated per iteration)"""
+    if start == avoid:
+        return False
+    seen = {start}
+    st = [start]
+    while st:
+        x = st.pop()
+        if x == goal:
+            return True
+        for s in body.succ(x):
+            if s not in seen and s != avoid:
+                seen.add(s)
+                st.append(s)
+    return False
 
 
 def blocks_until_return(body, start, limit=60):
